@@ -43,7 +43,7 @@ def gen(rnd):
         x[0:per - 1] = [rx[0]] + ([ry[0]] if three else []) + [rz[0]]
     # the constructors also take data / per-datum sigmas laid out (stations, events) and transpose them
     layout = rnd.choice(["event_major", "event_major", "data_station_major", "sigma_station_major", "both_station_major"]) if ne != ns else "event_major"
-    return {"layout": layout, "coincident": coincident, "ne": ne, "ns": ns, "three": three, "rx": rx, "ry": ry, "rz": rz, "infer": infer, "v": v, "obs": obs, "sd_scalar": sd_scalar, "s0": s0,
+    return {"velocity_hint": rnd.random() < 0.35, "layout": layout, "coincident": coincident, "ne": ne, "ns": ns, "three": three, "rx": rx, "ry": ry, "rz": rz, "infer": infer, "v": v, "obs": obs, "sd_scalar": sd_scalar, "s0": s0,
             "sds": sds, "x": x, "pattern": pattern}
 
 
@@ -59,7 +59,9 @@ def build(c, D, three=None, obs=None):
         obs_a = numpy.ascontiguousarray(obs_a.T)
     if lay in ("sigma_station_major", "both_station_major") and not c["sd_scalar"]:
         sds_a = numpy.ascontiguousarray(sds_a.T)
-    return cls(*args, obs_a, sds_a, infer_velocity=c["infer"], medium_velocity=None if c["infer"] else c["v"])
+    # with an inferred velocity a supplied medium_velocity is a leftover (a starting value, a flag toggled in a script): it is not used
+    hint = c["v"] if (c["infer"] and c.get("velocity_hint")) else None
+    return cls(*args, obs_a, sds_a, infer_velocity=c["infer"], medium_velocity=hint if c["infer"] else c["v"])
 
 
 def terms(c, x):
@@ -102,9 +104,14 @@ def run(tier, seed):
                     dist["sibling_instances"] += 1
                 except Exception:  # noqa
                     pass
-            mis = float(obj.misfit(xa.copy()))
-            grad = col(obj.gradient(xa.copy()))
-            fwd = numpy.asarray(obj.forward_vector(xa.copy()), dtype=float)
+            try:
+                mis = float(obj.misfit(xa.copy()))
+                grad = col(obj.gradient(xa.copy()))
+                fwd = numpy.asarray(obj.forward_vector(xa.copy()), dtype=float)
+            except Exception as e:  # noqa
+                violations.append(Violation("evaluation-raised", f"{desc}{' (a medium_velocity given although the velocity is inferred)' if c.get('velocity_hint') and c['infer'] else ''} at {x}: "
+                                            f"misfit / gradient / forward raised {type(e).__name__}: {str(e)[:120]}", {"case": c}))
+                continue
         for key, what in distgen.inplace_consistency(rnd, obj, xa, desc):
             violations.append(Violation(key, what, {"case": c}))
         dist["3d" if c["three"] else "2d"] += 1
